@@ -341,6 +341,15 @@ def scenarios():
         ("closed inline enum next to a relaxed inline enum over the same values in the same object",
          {"TicketQ": {"type": "object", "properties": {"priority": {"type": "string", "enum": ["low", "high"]}}}},
          {"TicketQ": {"type": "object", "properties": {"hint": {"anyOf": [S, {"type": "string", "enum": ["low", "high"]}]}, "priority": {"type": "string", "enum": ["low", "high"]}}}}, ("field", "TicketQ", "priority")),
+        ("relaxed inline enum (anyOf enum | string) vs closed inline enum over the same values in a component converted earlier",
+         {"BetaR": {"type": "object", "properties": {"mode": {"anyOf": [{"type": "string", "enum": ["on", "off"]}, S]}}}},
+         {"AlphaR": {"type": "object", "properties": {"sw": {"type": "string", "enum": ["on", "off"]}}}}, ("field", "BetaR", "mode")),
+        ("relaxed inline enum (anyOf string | enum) vs closed inline enum over the same values in a component converted earlier",
+         {"BetaS": {"type": "object", "properties": {"mode": {"anyOf": [S, {"type": "string", "enum": ["on", "off"]}]}}}},
+         {"AlphaS": {"type": "object", "properties": {"sw": {"type": "string", "enum": ["on", "off"]}}}}, ("field", "BetaS", "mode")),
+        ("relaxed inline enum vs closed inline enum over the same values in the same object, closed one first",
+         {"GammaR": {"type": "object", "properties": {"zmode": {"anyOf": [{"type": "string", "enum": ["on", "off"]}, S]}}}},
+         {"GammaR": {"type": "object", "properties": {"asw": {"type": "string", "enum": ["on", "off"]}, "zmode": {"anyOf": [{"type": "string", "enum": ["on", "off"]}, S]}}}}, ("field", "GammaR", "zmode")),
         ("inline enum vs named enum with a superset of values",
          {"HolderE": {"type": "object", "properties": {"v": {"type": "string", "enum": ["a", "b"]}}}}, {"Wide": {"type": "string", "enum": ["a", "b", "c"]}}, ("field", "HolderE", "v")),
     ]
